@@ -220,7 +220,7 @@ static void build_scenarios(bool thorough) {
       SC.push_back({nm, [=] { scen_checker(prov, k.key, k.attr, k.expl, cb, tk); }});
     }
     SC.push_back({std::string("keyring/") + prov_name(prov), [=] { scen_keyring(prov); }});
-    { int nh = thorough ? 40 : 5;
+    { int nh = thorough ? 250 : 5;
       for (int h = 0; h < nh; h++) { Rng rng(G_SEED * 1009 + h * 2 + prov); std::vector<vo::BOp> ops; int len = 5 + (int)rng.below(9);
         static const int W[] = {vo::B_HSET, vo::B_HSET, vo::B_HDEL, vo::B_CSET, vo::B_CSET, vo::B_CSET, vo::B_CDEL, vo::B_IAT, vo::B_OFFSET, vo::B_OFFSET, vo::B_SETKEY, vo::B_SETKEY, vo::B_SETKEY, vo::B_SETCB, vo::B_SETCB, vo::B_GEN, vo::B_GEN, vo::B_GEN};
         for (int i = 0; i < len; i++) { vo::BOp o; o.k = W[rng.below(18)]; o.a = (int)rng.below(4096); o.b = (int)rng.below(4096); o.c = (int)rng.below(4); ops.push_back(o); }
